@@ -285,7 +285,20 @@ fn run_n<const N: usize>(script: &Script, keep_trace: bool) -> Outcome {
         }
     }
     crate::alloc::set_fresh(false, 0);
-    Outcome { digest: ex.trace.fnv.0, failure: ex.fail.take(), stats: ex.stats, trace: ex.trace.text.take() }
+    let out = Outcome { digest: ex.trace.fnv.0, failure: ex.fail.take(), stats: std::mem::replace(&mut ex.stats, RunStats::new()), trace: ex.trace.text.take() };
+    if out.failure.is_some() {
+        // the buffer may be corrupt: never run the crate's Drop on it outside a window
+        std::mem::forget(ex);
+    } else {
+        let buf = ex.buf;
+        let r = window(move || drop(buf));
+        if r.is_err() {
+            let mut o = out;
+            o.failure = Some(Failure { step: script.steps.len(), classes: cls::IO | cls::PANIC_SPEC, op: Op::DropBuf, msg: "dropping the byte buffer panicked".into() });
+            return o;
+        }
+    }
+    out
 }
 
 /// Result of one transport call: Ok(value) / Err(description) / Pending.
